@@ -174,27 +174,38 @@ class H(object):
     def _record(cls, cond_name, inputs, detail, tb):
         if cls.cex_path is None or os.path.exists(cls.cex_path):
             return
+        err = None
+        conc, reals, det, info = None, {}, None, None
         try:
             conc = ch.deep_realize(inputs)
-            reals = {}
             for k, r in (cls._reals or {}).items():
                 try:
                     reals[k] = r.value()
                 except Exception:
                     reals[k] = None
-            doc = {'condition': cond_name, 'inputs': _jsonable(conc), 'reals': reals,
-                   'detail': _jsonable(ch.deep_realize(detail)), 'traceback': tb,
-                   'info': _jsonable(getattr(cls, '_extra', None)),
-                   'marks': sorted(cls._path_marks or ())}
-            with open(cls.cex_path, 'w') as f:
-                json.dump(doc, f, indent=1)
+            det = ch.deep_realize(detail)
+            try:
+                info = ch.deep_realize(getattr(cls, '_extra', None))
+            except Exception:
+                info = None
         except ch.IgnoreAttempt:
             raise
         except Exception as e:
+            err = '%s: %s' % (type(e).__name__, e)
+        with ch.NoTracing():
+            try:
+                doc = {'condition': cond_name, 'inputs': _jsonable(conc), 'reals': reals,
+                       'detail': _jsonable(det) if err is None else
+                       'could not realise counterexample: %s' % err,
+                       'traceback': tb if err is None else (tb or err), 'info': _jsonable(info),
+                       'marks': sorted(cls._path_marks or ())}
+                text = json.dumps(doc, indent=1, default=repr)
+            except Exception as e2:
+                text = json.dumps({'condition': cond_name, 'inputs': None, 'reals': {},
+                                   'detail': 'could not serialise counterexample',
+                                   'traceback': repr(e2)})
             with open(cls.cex_path, 'w') as f:
-                json.dump({'condition': cond_name, 'inputs': None, 'reals': {},
-                           'detail': 'could not realise counterexample: %r' % (e,),
-                           'traceback': traceback.format_exc()}, f)
+                f.write(text)
 
 
 _GEN_COUNT = [0]
